@@ -48,7 +48,7 @@ func (p *Parser) Parse() (ast.Tree, error) {
 		case next.Is(token.HASH):
 			comment := p.parseComment()
 			switch {
-			case p.next().Is(token.TASK):
+			case p.next().Is(token.TASK) && comment.Text != "":
 				// The comment was a tasks' docstring
 				task, err := p.parseTask(comment)
 				if err != nil {
